@@ -15,7 +15,7 @@ position x parameter vectors from a hostile value pool x histories over an LRU p
      spec's, templates must be unchanged and every earlier (stmt, params) must still give its request.
   W  random wide statements (up to 8 placeholders) with random vectors (TLC -simulate, RandomElement).
 """
-import json, os, re, sys, random
+import hashlib, json, os, re, sys, random
 from multiprocessing import Pool
 sys.path.insert(0, '/verif/tools')
 from vf import core, tlc, tla
@@ -36,7 +36,8 @@ def I(v):
 
 def stmt(kind, top=NONE, time=('none', []), conds=(), join='AND', order='none', l=NONE, f=NONE):
     return {'kind': kind, 'top': top, 'time': {'op': time[0], 'args': list(time[1])},
-            'w': {'conds': [{'tag': t, 'op': o, 'args': list(a)} for t, o, a in conds], 'join': join}, 'order': order, 'lo': {'l': l, 'f': f}}
+            'w': {'conds': [{'tag': x[0], 'op': x[1], 'form': (x[3] if len(x) > 3 else 'many' if x[1] == 'IN' else 'one'), 'args': list(x[2])} for x in conds],
+                  'join': join}, 'order': order, 'lo': {'l': l, 'f': f}}
 
 
 TEMPLATES = [
@@ -48,6 +49,8 @@ TEMPLATES = [
     stmt('stream', conds=[('s', '=', [PH])]),                      # its text is a prefix of the first one
     stmt('measure', conds=[('s', 'IN', [PH, PH])], order='DESC', l=PH, f=PH),
     stmt('stream', time=('=', [PH]), conds=[('i', '=', [PH])], l=PH, f=I('3')),
+    stmt('stream', conds=[('s', 'MATCH', [PH], 'one'), ('i', 'HAVING', [PH, I('3')], 'many')]),
+    stmt('trace', conds=[('s', 'HAVING', [PH], 'one')], l=PH),
 ]
 LITERAL = stmt('stream', conds=[('s', '=', [S('lit')])])          # no placeholder: bypasses the cache
 
@@ -68,13 +71,14 @@ def to_tla(v):
     raise TypeError(v)
 
 
-def cfg_text(consts, view=True, spec='Spec', overrides=()):
+def cfg_text(consts, view=True, spec='Spec', overrides=(), invariants=True):
     t = 'SPECIFICATION %s\nCONSTANTS\n Stmts <- MCStmts\n Values <- MCValues\n Paths <- MCPaths\n Cost <- MCCost\n' % spec
     for a, b in overrides:
         t += ' %s <- %s\n' % (a, b)
     for k in ('CacheSize', 'MaxBytes', 'MaxExec', 'MaxStmts', 'FullUpTo'):
         t += ' %s = %d\n' % (k, consts[k])
-    t += 'INVARIANTS\n' + ''.join(' %s\n' % i for i in INVARIANTS)
+    if invariants:
+        t += 'INVARIANTS\n' + ''.join(' %s\n' % i for i in INVARIANTS)
     if view:
         t += 'VIEW View\n'
     return t
@@ -101,46 +105,87 @@ MCSpecA == MCInitA /\\ [][MCNextA]_vars
 
 # B: few vectors per statement (valid baseline, one hostile value in each slot, no parameters)
 B_EXTRA = '''
-MCVectors(s) == LET b == BaseVector(s) IN {b, <<>>} \\cup { [b EXCEPT ![i] = v] : i \\in 1..Len(b), v \\in MCValues }
+H == CHOOSE v \\in MCValues : TRUE
+MCVectors(s) == LET b == BaseVector(s) IN
+  {b} \\cup (IF Len(b) > 0 THEN {[b EXCEPT ![1] = H], [b EXCEPT ![Len(b)] = H]} ELSE {<<H>>})
+ViewG == <<cache, evicted, n, last>>   \\* state graph for replay: the history set is not needed to choose the next step
 ASSUME MCStmts \\subseteq Grammar
 '''
 
 # W: random statements of the whole grammar with random vectors (-simulate only)
 W_EXTRA = '''
-RandStmt == Norm([kind |-> RandomElement(Kinds), top |-> RandomElement(Tops), time |-> RandomElement(TimeForms),
-                  w |-> RandomElement(Wheres({"AND", "OR"})), order |-> RandomElement({"none", "DESC"}), lo |-> RandomElement(LimOffs)])
+WAll == Wheres({"AND", "OR"})
+RandStmt(x) == Norm([kind |-> RandomElement(Kinds), top |-> RandomElement(Tops), time |-> RandomElement(TimeForms),
+                  w |-> RandomElement(WAll), order |-> RandomElement({"none", "DESC"}), lo |-> RandomElement(LimOffs)])
 RandVector(s) == [i \\in 1..NumSlots(s) |-> IF RandomElement(1..4) = 1 THEN RandomElement(Values) ELSE Base(Slots(s)[i], i)]
 MCNextW == /\\ n < MaxExec
-           /\\ \\E s \\in {RandStmt} \\cup Used : \\E p \\in {RandVector(s)} : \\E path \\in Paths : Execute(s, p, path)
+           /\\ \\E s \\in {RandStmt(n)} \\cup (IF Used = {} THEN {} ELSE {RandomElement(Used)}) : \\E p \\in {RandVector(s)} : \\E path \\in Paths : Execute(s, p, path)
 MCSpecW == Init /\\ [][MCNextW]_vars
 '''
 
 
-def _parse_chunk(args):
-    """worker: state texts -> behaviour json lines (init + one execution), keeping hist and last only"""
-    first, chunks = args
-    out = []
-    for k, ch in enumerate(chunks):
-        st = tla.parse_state(ch)
-        if st['last'].get('op') != 'exec':
-            continue
-        out.append(json.dumps({'id': first + k, 'states': [{'last': {'op': 'init'}}, {'hist': st['hist'], 'last': st['last']}]}))
-    return out
+def _parse_range(args):
+    """worker: the states of a depth-1 TLC state dump whose 'State n:' header starts in [start, end) -> behaviour json
+    lines (init + one execution) appended to its own part file.  Only the `hist` conjunct is parsed: it has exactly one
+    element, and `last` repeats its stmt and params (path oneshot)."""
+    path, part, start, end, out_path = args
+    n = 0
+    with open(path, 'rb') as f, open(out_path, 'w') as out:
+        if start > 0:
+            f.seek(start - 1)
+            f.readline()                      # the rest of the line that contains byte start-1 (it belongs to the previous range)
+        cur, cur_in_range = [], False
+
+        def flush():
+            nonlocal n
+            if not cur or not cur_in_range:
+                return
+            ch = b''.join(cur).decode()
+            a = ch.find('/\\ hist = ')
+            b = ch.find('\n/\\ ', a + 1)
+            hist = tla.parse_value(ch[a + len('/\\ hist = '):b if b > 0 else len(ch)])
+            if not hist:
+                return                        # an initial state
+            if len(hist) != 1 or '"oneshot"' not in ch:
+                raise tla.ParseError('unexpected state in the depth-1 dump: %s' % ch[:200])
+            h = hist[0]
+            last = {'op': 'exec', 'stmt': h['stmt'], 'params': h['params'], 'path': 'oneshot', 'cres': '-', 'bytes': 0}
+            out.write(json.dumps({'id': part * 10000000 + n, 'states': [{'last': {'op': 'init'}}, {'hist': hist, 'last': last}]}) + '\n')
+            n += 1
+
+        while True:
+            pos = f.tell()
+            line = f.readline()
+            if not line:
+                break
+            if line.startswith(b'State ') and line.rstrip().endswith(b':'):
+                flush()
+                if pos >= end:
+                    cur = []
+                    break
+                cur, cur_in_range = [], True
+                continue
+            if cur_in_range:
+                cur.append(line)
+        flush()
+    return n
 
 
 def dump_to_behaviours(dump_path, out_path):
-    """TLC -dump file of a depth-1 state space -> ndjson behaviours; returns number of executions"""
-    txt = open(dump_path).read()
-    chunks = re.split(r'^State \d+:\n', txt, flags=re.M)[1:]
-    del txt
-    jobs = [(i, chunks[i:i + 400]) for i in range(0, len(chunks), 400)]
-    n = 0
-    with Pool(min(16, os.cpu_count() or 4)) as pool, open(out_path, 'w') as f:
-        for lines in pool.imap(_parse_chunk, jobs, chunksize=1):
-            for l in lines:
-                f.write(l + '\n')
-                n += 1
-    return n
+    """TLC -dump file of a depth-1 state space -> ndjson behaviours (parsed in parallel by byte ranges); returns the
+    number of executions"""
+    size = os.path.getsize(dump_path)
+    nparts = max(1, min(64, size // (4 << 20)))
+    step = size // nparts + 1
+    jobs = [(dump_path, i, i * step, min(size, (i + 1) * step), '%s.part%d' % (out_path, i)) for i in range(nparts)]
+    with Pool(min(16, os.cpu_count() or 4)) as pool:
+        counts = pool.map(_parse_range, jobs, chunksize=1)
+    with open(out_path, 'wb') as out:
+        for j in jobs:
+            with open(j[4], 'rb') as f:
+                __import__('shutil').copyfileobj(f, out, 16 << 20)
+            os.remove(j[4])
+    return sum(counts)
 
 
 def read_behaviour(path, bid):
@@ -208,69 +253,74 @@ def main():
             tlc.cleanup(r)
             c.inconclusive('TLC on Bydbql.tla (%s): violated=%s error=%s timeout=%s\n%s' % (what, r.violated, r.error, r.timed_out, r.output[-2000:]))
 
+    parts = os.environ.get('VERIF_C20_PARTS', 'ABW')   # development aid: a run that skips a part is never 'held'
+    na = 0
     # ================================================================ A: every single execution
     if c.quick:
-        a_filter = ('(NumSlots(s) = 1 /\\ LitClauses(s) <= 1) \\/ (NumSlots(s) = 2 /\\ LitClauses(s) = 0 /\\ s.order = "none")')
+        a_filter = ('(NumSlots(s) = 1 /\\ LitClauses(s) = 0) \\/ (NumSlots(s) = 2 /\\ LitClauses(s) = 0 /\\ s.order = "none" /\\ s.kind \\in {"stream", "measure", "topn"})')
         a_values = ('{ v \\in AllValues : CASE v.t = "str" -> v.v \\in {"a\' OR \'1\'=\'1", "x -- c", "/* c */", "a,b", "", "SELECT", "?", '
                     '"back\\\\slash\\\\\'q", "7", "2026-02-03T04:05:06Z", "b1"} '
                     '[] v.t = "int" -> v.v \\in {"-1", "0", "7", "i32max", "i32max+1", "u32max", "u32max+1", "i64max"} [] OTHER -> TRUE }')
     else:
-        a_filter = '(NumSlots(s) = 1) \\/ (NumSlots(s) = 2 /\\ LitClauses(s) <= 1) \\/ (NumSlots(s) = 3 /\\ LitClauses(s) = 0)'
+        a_filter = ('(NumSlots(s) = 1) \\/ (NumSlots(s) = 2 /\\ LitClauses(s) = 0 /\\ s.order = "none") \\/ '
+                    '(NumSlots(s) = 3 /\\ LitClauses(s) = 0 /\\ s.order = "none" /\\ s.kind = "stream")')
         a_values = 'AllValues'
-    a_consts = dict(CacheSize=1, MaxBytes=0, MaxExec=1, MaxStmts=1, FullUpTo=1)
-    a_files = {'MC.tla': mc_module('{}', a_values, '{"oneshot"}', extra=A_EXTRA % {'filter': a_filter}),
-               'a.cfg': cfg_text(a_consts, view=False, spec='MCSpecA')}
-    ra = tlc.run('MC.tla', 'a.cfg', tag='c20a', files=a_files, extra=['-dump', 'states'], keep=True, workers=16,
-                 timeout=600 if c.quick else 2400, heap='12g')
-    need_ok(ra, 'A, single executions')
-    c.log('TLC A (single executions): %d states, invariants hold (%.1fs)' % (ra.distinct, ra.wall))
-    tot['states'] += ra.distinct
-    tot['transitions'] += ra.generated
-    fa = os.path.join(core.BUILD, 'beh', 'C20-A-%d.ndjson' % os.getpid())
-    os.makedirs(os.path.dirname(fa), exist_ok=True)
-    na = dump_to_behaviours(os.path.join(ra.workdir, 'states.dump'), fa)
-    tlc.cleanup(ra)
-    c.log('A: %d executions exported' % na)
-    if na == 0 or na > ra.distinct:
-        c.inconclusive('state dump has %d executions, TLC reported %d states' % (na, ra.distinct))
-    res_a = c.run_harness(binp, ['-mode', 'replay', '-in', fa, '-shared'], timeout=2400)
-    absorb(res_a)
-    handle(res_a, lambda bid: read_behaviour(fa, bid), ['-shared'], 'A')
-    c.log('A: replayed %d executions' % res_a['steps'])
-    runs.append(dict(part='A', filter=a_filter, states=ra.distinct, executions=na, tlc_s=round(ra.wall, 1)))
-
-    # binding self-test: corrupt the expected verdict / one literal / the shape -> the harness must object
     selftest = {}
-    probe = None
-    with open(fa) as f:
-        for line in f:
-            if '"rej": "no"' not in line or '"t": "str"' not in line:
-                continue
-            b = json.loads(line)
-            h = b['states'][1]['hist'][0]
-            if h['out']['rej'] == 'no' and h['params'] and all(p.get('t') == 'str' for p in h['params']) and h['stmt']['w']['conds']:
-                probe = b
-                break
-    os.remove(fa)
-    if probe is None:
-        c.inconclusive('self-test: no accepted execution with a string parameter found')
-    m1 = json.loads(json.dumps(probe))
-    m1['states'][1]['hist'][0]['out'] = {'rej': 'bind'}
-    m2 = json.loads(json.dumps(probe))
-    for cond in m2['states'][1]['hist'][0]['out']['lit']['w']['conds']:
-        for a in cond['args']:
-            if a.get('t') == 'str':
-                a['v'] = a['v'] + "' OR s = 'x"
-    m3 = json.loads(json.dumps(probe))
-    m3['states'][1]['hist'][0]['out']['shape']['where'] = m3['states'][1]['hist'][0]['out']['shape']['where'] + [{'tag': 's', 'op': '='}]
-    for name, mb in (('flipped_verdict', m1), ('corrupted_literal', m2), ('corrupted_shape', m3)):
-        fm = c.write_behaviours('selftest', [mb['states']])
-        rm = c.run_harness(binp, ['-mode', 'replay', '-in', fm, '-shared'])
-        os.remove(fm)
-        selftest[name] = bool(rm['violations'])
+    if 'A' in parts:
+        a_consts = dict(CacheSize=1, MaxBytes=0, MaxExec=1, MaxStmts=1, FullUpTo=1)
+        a_files = {'MC.tla': mc_module('{}', a_values, '{"oneshot"}', extra=A_EXTRA % {'filter': a_filter}),
+                   'a.cfg': cfg_text(a_consts, view=False, spec='MCSpecA')}
+        ra = tlc.run('MC.tla', 'a.cfg', tag='c20a', files=a_files, extra=['-dump', 'states'], keep=True, workers=16,
+                     timeout=600 if c.quick else 2400, heap='12g')
+        need_ok(ra, 'A, single executions')
+        c.log('TLC A (single executions): %d states, invariants hold (%.1fs)' % (ra.distinct, ra.wall))
+        tot['states'] += ra.distinct
+        tot['transitions'] += ra.generated
+        fa = os.path.join(core.BUILD, 'beh', 'C20-A-%d.ndjson' % os.getpid())
+        os.makedirs(os.path.dirname(fa), exist_ok=True)
+        na = dump_to_behaviours(os.path.join(ra.workdir, 'states.dump'), fa)
+        tlc.cleanup(ra)
+        c.log('A: %d executions exported' % na)
+        if na == 0 or na > ra.distinct:
+            c.inconclusive('state dump has %d executions, TLC reported %d states' % (na, ra.distinct))
+        res_a = c.run_harness(binp, ['-mode', 'replay', '-in', fa, '-shared', '-amplify'], timeout=2400)
+        absorb(res_a)
+        handle(res_a, lambda bid: read_behaviour(fa, bid), ['-shared', '-amplify'], 'A')
+        c.log('A: replayed %d executions (%d of them with further hostile strings in place of the baseline string)' % (res_a['steps'], res_a['stats'].get('amplified_executions', 0)))
+        runs.append(dict(part='A', filter=a_filter, states=ra.distinct, executions=na, tlc_s=round(ra.wall, 1)))
+
+        # binding self-test: corrupt the expected verdict / one literal / the shape -> the harness must object
+        probe = None
+        with open(fa) as f:
+            for line in f:
+                if '"rej": "no"' not in line or '"t": "str"' not in line:
+                    continue
+                b = json.loads(line)
+                h = b['states'][1]['hist'][0]
+                if h['out']['rej'] == 'no' and h['params'] and all(p.get('t') == 'str' for p in h['params']) and h['stmt']['w']['conds']:
+                    probe = b
+                    break
+        if not os.environ.get('VERIF_C20_KEEP'):
+            os.remove(fa)
+        if probe is None:
+            c.inconclusive('self-test: no accepted execution with a string parameter found')
+        m1 = json.loads(json.dumps(probe))
+        m1['states'][1]['hist'][0]['out'] = {'rej': 'bind'}
+        m2 = json.loads(json.dumps(probe))
+        for cond in m2['states'][1]['hist'][0]['out']['lit']['w']['conds']:
+            for a in cond['args']:
+                if a.get('t') == 'str':
+                    a['v'] = a['v'] + "' OR s = 'x"
+        m3 = json.loads(json.dumps(probe))
+        m3['states'][1]['hist'][0]['out']['shape']['where'] = m3['states'][1]['hist'][0]['out']['shape']['where'] + [{'tag': 's', 'op': '='}]
+        for name, mb in (('flipped_verdict', m1), ('corrupted_literal', m2), ('corrupted_shape', m3)):
+            fm = c.write_behaviours('selftest', [mb['states']])
+            rm = c.run_harness(binp, ['-mode', 'replay', '-in', fm, '-shared'])
+            os.remove(fm)
+            selftest[name] = bool(rm['violations'])
 
     # ================================================================ B: histories over the prepared cache
-    nsel = 1 if c.quick else 3
+    nsel = 1 if 'B' in parts else 0
     b_values = '{StrL("a\' OR \'1\'=\'1")}'
     nontriv = 0
     b_behaviours = 0
@@ -290,38 +340,49 @@ def main():
         m1b, m2b = tc[1] + tc[2] - 1, tc[2] - 1
         cost_fn = 'CASE ' + ' [] '.join('s = %s -> %d' % (to_tla(s), k) for s, k in zip(chosen, costs))
         stm = '{' + ', '.join(to_tla(s) for s in chosen) + '}'
-        configs = [(1, 0), (2, m1b)] if c.quick else [(1, 0), (2, 0), (2, m1b), (2, m2b), (1, m2b), (0, 0)]
-        for (size, mb) in configs:
-            depth_g = 3 if c.quick else 4
-            consts = dict(CacheSize=size, MaxBytes=mb, MaxExec=depth_g, MaxStmts=3, FullUpTo=0)
+        # (cache size, byte bound, full = also exhaustive-with-histories and -simulate)
+        configs = ([(2, m1b, True), (1, 0, False)] if c.quick else
+                   [(1, 0, True), (2, m1b, True), (2, 0, True), (2, m2b, True), (1, m2b, True), (0, 0, True)])
+        if sel > 0:
+            configs = configs[:3]
+        for ci, (size, mb, full) in enumerate(configs):
+            depth_e = 3 if (c.quick or ci >= 2 or sel > 0) else 4      # exhaustive with histories (hist in the state)
+            depth_g = (4 if full else 3) if c.quick else (5 if ci < 2 else 4)   # state graph for replay (hist hidden)
+            consts = dict(CacheSize=size, MaxBytes=mb, MaxExec=depth_g, MaxStmts=4, FullUpTo=0)
             files = {'MC.tla': mc_module(stm, b_values, '{"oneshot", "cached"}', cost=cost_fn, extra=B_EXTRA)}
             hargs = ['-cachesize', str(size), '-maxbytes', str(mb)]
             tag = 'B sel=%d size=%d maxbytes=%d' % (sel, size, mb)
-            # exhaustive with the history variable hidden (deeper), thorough tier also with action coverage
-            e_consts = dict(consts, MaxExec=depth_g + 1)
-            re_ = tlc.run('MC.tla', 'e.cfg', tag='c20e', files=dict(files, **{'e.cfg': cfg_text(e_consts, view=True, overrides=[('Vectors', 'MCVectors')])}),
-                          coverage=not c.quick, workers=16, timeout=1200, heap='8g')
-            need_ok(re_, tag + ' exhaustive')
-            tot['states'] += re_.distinct
-            tot['transitions'] += re_.generated
-            for k, v in (re_.coverage or {}).items():
-                action_cov[k] = action_cov.get(k, 0) + v
-            # state graph (last visible): every transition becomes an implementation step
-            rg = tlc.run('MC.tla', 'g.cfg', tag='c20g', files=dict(files, **{'g.cfg': cfg_text(consts, view=False, overrides=[('Vectors', 'MCVectors')])}),
+            ov = [('Vectors', 'MCVectors')]
+            # exhaustive with all invariants, `last` hidden, at most 3 statements per history; thorough tier also with action coverage
+            e_states, e_wall = 0, 0.0
+            if full:
+                e_consts = dict(consts, MaxExec=depth_e, MaxStmts=3)
+                re_ = tlc.run('MC.tla', 'e.cfg', tag='c20e', files=dict(files, **{'e.cfg': cfg_text(e_consts, view=True, overrides=ov)}),
+                              coverage=not c.quick, workers=16, timeout=1200, heap='8g')
+                need_ok(re_, tag + ' exhaustive')
+                e_states, e_wall = re_.distinct, re_.wall
+                tot['states'] += re_.distinct
+                tot['transitions'] += re_.generated
+                for k, v in (re_.coverage or {}).items():
+                    action_cov[k] = action_cov.get(k, 0) + v
+            # state graph with `last` visible and the history set hidden: every transition becomes an implementation step
+            rg = tlc.run('MC.tla', 'g.cfg', tag='c20g', files=dict(files, **{'g.cfg': cfg_text(consts, view=False, overrides=ov, invariants=False) + 'VIEW ViewG\n'}),
                          dump=True, workers=16, timeout=1200, heap='8g')
             need_ok(rg, tag + ' graph')
             nodes, edges, inits = tlc.graph(rg)
             behs, uncovered = tlc.cover_edges(nodes, edges, inits, max_len=depth_g + 1)
             tlc.cleanup(rg)
             # deep random histories
-            s_consts = dict(consts, MaxExec=10)
-            rs = tlc.run('MC.tla', 's.cfg', tag='c20s', files=dict(files, **{'s.cfg': cfg_text(s_consts, view=False, overrides=[('Vectors', 'MCVectors')])}),
-                         simulate={'num': 150 if c.quick else 1500}, depth=11, seed=c.seed + sel, timeout=900)
-            if not rs.ok:
+            sb = []
+            if full:
+                s_consts = dict(consts, MaxExec=8, MaxStmts=3)
+                rs = tlc.run('MC.tla', 's.cfg', tag='c20s', files=dict(files, **{'s.cfg': cfg_text(s_consts, view=False, overrides=ov, invariants=False)}),
+                             simulate={'num': 30 if c.quick else 150}, depth=9, seed=c.seed + sel, timeout=900)
+                if not rs.ok:
+                    tlc.cleanup(rs)
+                    c.inconclusive('TLC -simulate (%s) failed: %s\n%s' % (tag, rs.error or rs.violated, rs.output[-1500:]))
+                sb = tlc.sim_behaviours(rs)
                 tlc.cleanup(rs)
-                c.inconclusive('TLC -simulate (%s) failed: %s\n%s' % (tag, rs.error or rs.violated, rs.output[-1500:]))
-            sb = tlc.sim_behaviours(rs)
-            tlc.cleanup(rs)
             allb = behs + sb
             fb = c.write_behaviours('B', allb)
             res_b = c.run_harness(binp, ['-mode', 'replay', '-in', fb] + hargs, timeout=1500)
@@ -332,8 +393,8 @@ def main():
             nontriv += core.nontrivial_count(allb, lambda st: any(x['last'].get('cres') in ('reparse',) for x in st[1:])
                                              or (any(x['last'].get('cres') == 'hit' for x in st[1:]) and len(st[-1]['evicted']) > 0))
             c.log('%s: costs=%s exhaustive %d states (%.1fs); graph %d states %d edges -> %d behaviours (uncovered %d) + %d simulated; replayed %d steps'
-                  % (tag, costs, re_.distinct, re_.wall, len(nodes), len(edges), len(behs), uncovered, len(sb), res_b['steps']))
-            runs.append(dict(part='B', selection=sel, cache_size=size, max_bytes=mb, costs=costs, exhaustive_states=re_.distinct, exhaustive_depth=depth_g + 1,
+                  % (tag, costs, e_states, e_wall, len(nodes), len(edges), len(behs), uncovered, len(sb), res_b['steps']))
+            runs.append(dict(part='B', selection=sel, cache_size=size, max_bytes=mb, costs=costs, exhaustive_states=e_states, exhaustive_depth=depth_e if full else 0, graph_depth=depth_g,
                              graph_states=len(nodes), graph_edges=len(edges), graph_edges_uncovered=uncovered, edge_cover_behaviours=len(behs),
                              simulated=len(sb), steps=res_b['steps']))
             # self-test 2 (once): a wrong cache verdict in the expectation must be noticed
@@ -355,26 +416,42 @@ def main():
                     selftest['corrupted_cache_verdict'] = any(v['signature'].startswith('cache-verdict') for v in rm['violations'])
 
     # ================================================================ W: random wide statements and vectors
-    w_consts = dict(CacheSize=2, MaxBytes=0, MaxExec=6, MaxStmts=6, FullUpTo=0)
-    files = {'MC.tla': mc_module('{}', a_values, '{"oneshot", "cached"}', extra=W_EXTRA),
-             'w.cfg': cfg_text(w_consts, view=False, spec='MCSpecW')}
-    rw = tlc.run('MC.tla', 'w.cfg', tag='c20w', files=files, simulate={'num': 400 if c.quick else 6000}, depth=7, seed=c.seed, timeout=1200)
-    if not rw.ok:
+    wb = []
+    if 'W' in parts:
+        w_consts = dict(CacheSize=2, MaxBytes=0, MaxExec=6, MaxStmts=6, FullUpTo=0)
+        files = {'MC.tla': mc_module('{}', a_values, '{"oneshot", "cached"}', extra=W_EXTRA),
+                 'w.cfg': cfg_text(w_consts, view=False, spec='MCSpecW')}
+        rw = tlc.run('MC.tla', 'w.cfg', tag='c20w', files=files, simulate={'num': 150 if c.quick else 1000}, depth=7, seed=c.seed, timeout=1200)
+        if not rw.ok:
+            tlc.cleanup(rw)
+            c.inconclusive('TLC -simulate (wide) failed: %s\n%s' % (rw.error or rw.violated, rw.output[-1500:]))
+        wb = tlc.sim_behaviours(rw)
+        c.log('TLC W (-simulate): %d behaviours (%.1fs)' % (len(wb), rw.wall))
+        w_digest = hashlib.sha1(json.dumps(wb, sort_keys=True).encode()).hexdigest()[:12]
         tlc.cleanup(rw)
-        c.inconclusive('TLC -simulate (wide) failed: %s\n%s' % (rw.error or rw.violated, rw.output[-1500:]))
-    wb = tlc.sim_behaviours(rw)
-    tlc.cleanup(rw)
-    fw = c.write_behaviours('W', wb)
-    hargs = ['-cachesize', '2', '-maxbytes', '0']
-    res_w = c.run_harness(binp, ['-mode', 'replay', '-in', fw] + hargs, timeout=1500)
-    os.remove(fw)
-    absorb(res_w)
-    handle(res_w, lambda bid: wb[bid], hargs, 'W')
-    wide = [nslots(x['last']['stmt']) for b in wb for x in b[1:]]
-    c.log('W: %d random histories, %d executions, placeholders per statement max %d mean %.1f'
-          % (len(wb), res_w['steps'], max(wide or [0]), sum(wide) / max(1, len(wide))))
-    runs.append(dict(part='W', histories=len(wb), executions=res_w['steps'], max_placeholders=max(wide or [0])))
+        fw = c.write_behaviours('W', wb)
+        hargs = ['-cachesize', '2', '-maxbytes', '0', '-nobytes']   # the byte cost of random statements is not given to the spec
+        res_w = c.run_harness(binp, ['-mode', 'replay', '-in', fw] + hargs, timeout=1500)
+        os.remove(fw)
+        absorb(res_w)
+        handle(res_w, lambda bid: wb[bid], hargs, 'W')
+        wide = [nslots(x['last']['stmt']) for b in wb for x in b[1:]]
+        c.log('W: %d random histories, %d executions, placeholders per statement max %d mean %.1f'
+              % (len(wb), res_w['steps'], max(wide or [0]), sum(wide) / max(1, len(wide))))
+        runs.append(dict(part='W', histories=len(wb), executions=res_w['steps'], max_placeholders=max(wide or [0]), digest=w_digest))
 
+    verdicts = {}
+    for k, v in stats.items():
+        if k.startswith('cres_'):
+            verdicts[k[5:]] = v
+    need = ['executions_oneshot', 'executions_prepared', 'executions_cached', 'executions_service', 'rejections_agreed', 'requests_equal_to_literal',
+            'rejected_by_literal_rules', 'cache_states_compared', 'reexecutions', 'reexecutions_on_cached_template', 'amplified_executions',
+            'cres_hit', 'cres_miss', 'cres_reparse', 'cres_bypass'] + ([] if c.quick else ['cres_off'])
+    if parts != 'ABW':
+        c.inconclusive('partial run (VERIF_C20_PARTS=%s): %s' % (parts, json.dumps(runs)))
+    vac = [k for k in need if not stats.get(k)]
+    if vac:
+        c.inconclusive('vacuous run: never exercised: %s' % vac)
     if not all(selftest.values()) or len(selftest) < 4:
         c.inconclusive('binding self-test failed: a corrupted expectation was accepted (or could not be built): %s' % selftest)
 
@@ -387,7 +464,7 @@ def main():
              'random wide histories of part W; disagreements_checked = executions compared with the spec and with the literalised statement on every '
              'code path; non-trivial = a cache history containing a re-parse, or a hit after an eviction; distinct by full state sequence',
         exhaustive=all(r.get('graph_edges_uncovered', 0) == 0 for r in runs),
-        harness_stats=stats, runs=runs, action_coverage=action_cov, binding_selftest_rejected=all(selftest.values()), binding_selftest=selftest,
+        harness_stats=stats, cache_verdicts_seen=verdicts, runs=runs, action_coverage=action_cov, binding_selftest_rejected=all(selftest.values()), binding_selftest=selftest,
         samples=samples,
     )
     c.assumptions += [
